@@ -191,6 +191,32 @@ def check(ck):
                            "`%s` runs between the status test and `raise TransportError`: if it raises (a body that does not decode, an "
                            "unexpected type), the caller gets that exception instead of the TransportError carrying URL and status"
                            % dump(c)[:60], q.loc(fs, n_))
+    # `response.close()` declares the exchange complete whatever was read: http.client then accepts the next request on the same
+    # socket while bytes of this exchange (the final reply after an interim 1xx one, an undeclared body) are still to come, and
+    # every later call returns the reply of the one before.  Closing the response is fine when the connection goes with it.
+    for b in fb2:
+        region = reachable_avoiding(g, b.id, set(r_.id for r_ in rz), lambda l: l != "exc")
+        rclose, sclose = [], set()
+        for nid in sorted(region):
+            n_ = g.nodes[nid]
+            for c in node_calls(n_):
+                if dump(c.func) == "self.close" and not c.args:
+                    sclose.add(nid)
+                    continue
+                hf_ = prog.resolve_call(fs, c) if not isinstance(c.func, ast.Attribute) or dump(c.func).startswith("self.") else None
+                in_helper = hasattr(hf_, "node") and any(isinstance(x, ast.Call) and isinstance(x.func, ast.Attribute) and x.func.attr == "close" and
+                                                         isinstance(x.func.value, ast.Name) and x.func.value.id in hf_.params for x in ast.walk(hf_.node))
+                direct = isinstance(c.func, ast.Attribute) and c.func.attr == "close" and \
+                    all(a[0] == "call" and a[1][0] == "attr" and a[1][2] == "getresponse" for a in prov.value_alts(prov.origin(g, n_, c.func.value)))
+                if direct or in_helper:
+                    rclose.append((n_, c))
+        for (n_, c) in rclose:
+            n2b += 1
+            okk = all(r_.id not in reachable_avoiding(g, b.id, sclose, lambda l: l != "exc") for r_ in rz)
+            ck.require(okk, "C19.2", "%s: `%s` on the non-200 path" % (q.fn(fs), dump(c)[:40]), "the connection is closed as well",
+                       "`%s` marks the non-200 reply complete without reading it to its end and keeps the connection: what is still to come of "
+                       "this exchange (the final reply after an interim 1xx one, a body without Content-Length) is read as the reply of the "
+                       "next call, and every later call returns the result of the one before" % dump(c)[:50], q.loc(fs, n_))
     for rn in rz:
         for i_, want_ in ((2, "reason"), (3, "msg")):
             if len(rn.ast.exc.args) > i_:
